@@ -12,6 +12,7 @@ import (
 	"bufio"
 	"bytes"
 	"fmt"
+	"io"
 	"reflect"
 
 	hessian "github.com/vogo/gohessian"
@@ -34,10 +35,11 @@ const (
 	hStreamRead
 	hReset
 	hReadFromSameReader
+	hWriteToSameWriter
 	nHistOp
 )
 
-var c11OpNames = []string{"encode", "encode-unrepresentable", "WriteTo(aborted by writer fault)", "decode", "decode(damaged/cut stream)", "stream write", "stream read", "Reset", "ReadFrom(the caller's one reader, next message)"}
+var c11OpNames = []string{"encode", "encode-unrepresentable", "WriteTo(aborted by writer fault)", "decode", "decode(damaged/cut stream)", "stream write", "stream read", "Reset", "ReadFrom(the caller's one reader, next message)", "WriteTo(the caller's one writer, next message)"}
 
 const (
 	pEncode = iota
@@ -50,11 +52,12 @@ const (
 var c11ProbeNames = []string{"Encode/ToBytes", "WriteTo", "Decode/ToObject", "ReadFrom"}
 
 type c11Inst struct {
-	ser hessian.Serializer
-	enc *hessian.Encoder
-	dec *hessian.Decoder
-	tm  map[string]reflect.Type
-	nm  map[string]string
+	sameW *bytes.Buffer
+	ser   hessian.Serializer
+	enc   *hessian.Encoder
+	dec   *hessian.Decoder
+	tm    map[string]reflect.Type
+	nm    map[string]string
 }
 
 func c11New(pair bool, tm map[string]reflect.Type, nm map[string]string) *c11Inst {
@@ -166,19 +169,19 @@ func (st *c11State) pristineMaps() (map[string]reflect.Type, map[string]string) 
 }
 
 type c11State struct {
-	tm0      map[string]reflect.Type
-	nm0      map[string]string
-	persistBuf *bytes.Buffer // a caller-owned stream that is handed to ReadFrom again and again
-	persistRd  *bufio.Reader
-	o        *Outcome
-	ch       *Choices
-	g        *Gen
-	in       *c11Inst
-	pair     bool
-	tmDigest string
-	earlier  []c11Earlier
-	opLog    []string
-	aborted  int
+	tm0       map[string]reflect.Type
+	nm0       map[string]string
+	persistRd *SimReader    // a caller-owned reader OBJECT that is handed to ReadFrom again and again
+	persistW  *bytes.Buffer // a caller-owned writer OBJECT that is handed to WriteTo again and again
+	o         *Outcome
+	ch        *Choices
+	g         *Gen
+	in        *c11Inst
+	pair      bool
+	tmDigest  string
+	earlier   []c11Earlier
+	opLog     []string
+	aborted   int
 }
 
 // checkEarlier re-compares everything earlier calls returned with their snapshots.
@@ -365,25 +368,31 @@ func (st *c11State) histOp(kind int) {
 	case hReadFromSameReader:
 		// the pool benchmark's pattern: one buffer + one bufio.Reader owned by the caller; every message
 		// is appended to the buffer and read with ReadFrom(the same reader object)
-		if st.persistBuf == nil {
-			st.persistBuf = &bytes.Buffer{}
-			st.persistRd = bufio.NewReader(st.persistBuf)
+		if st.persistRd == nil {
+			st.persistRd = NewSimReader(nil, nil)
 		}
 		b := c11ValidBytes(g.Value())
 		if ch.Intn(4, "same.dmg") == 1 {
 			b, _, _ = ApplyPlan(b, []TFault{{Kind: TCut, Off: ch.Intn(len(b)+1, "same.cut")}})
 		}
-		st.persistBuf.Write(b)
+		// the reader object stays the same; it now holds exactly the next message (no state of its own
+		// survives: what a failed read left unread is dropped, as a caller would)
+		*st.persistRd = SimReader{Data: b, Tail: io.EOF}
 		st.around("ReadFrom(same reader)", nil, nil, func() {
 			v, err := in.readFrom(st.persistRd)
 			if err == nil {
 				st.keepVal("ReadFrom(same reader)", v)
 			}
 		})
-		// drop whatever a failed read left behind, as a caller would
-		st.persistRd.Discard(st.persistRd.Buffered())
-		st.persistBuf.Reset()
 		st.o.Probes["ReadFrom called again with the same reader object"]++
+	case hWriteToSameWriter:
+		if st.persistW == nil {
+			st.persistW = &bytes.Buffer{}
+		}
+		v := g.Value()
+		st.persistW.Reset()
+		st.around("WriteTo(same writer)", v, nil, func() { in.writeTo(st.persistW, v) })
+		st.o.Probes["WriteTo called again with the same writer object"]++
 	case hReset:
 		if in.enc != nil {
 			guarded(func() { in.enc.Reset(&bytes.Buffer{}) })
@@ -413,8 +422,12 @@ func c11Probe(in *c11Inst, kind int, v interface{}, data []byte) (r c11ProbeRes)
 			b, err := in.encode(v)
 			r.bytes, r.err = append([]byte(nil), b...), maskErr(err)
 		case pWriteTo:
-			var buf bytes.Buffer
-			err := in.writeTo(&buf, v)
+			buf := &bytes.Buffer{}
+			if in.sameW != nil {
+				buf = in.sameW // the writer object the history already used
+				buf.Reset()
+			}
+			err := in.writeTo(buf, v)
 			r.bytes, r.err = append([]byte(nil), buf.Bytes()...), maskErr(err)
 		case pDecode:
 			x, err := in.decode(data)
@@ -429,16 +442,15 @@ func c11Probe(in *c11Inst, kind int, v interface{}, data []byte) (r c11ProbeRes)
 	return r
 }
 
-// c11ProbeSameReader reads data with ReadFrom through the caller's persistent reader object.
-func c11ProbeSameReader(in *c11Inst, buf *bytes.Buffer, rd *bufio.Reader, data []byte) (r c11ProbeRes) {
-	buf.Write(data)
+// c11ProbeSameReader reads data with ReadFrom through a given reader object, which is first loaded with
+// exactly that data (the object carries no other state).
+func c11ProbeSameReader(in *c11Inst, rd *SimReader, data []byte) (r c11ProbeRes) {
+	*rd = SimReader{Data: data, Tail: io.EOF}
 	r.pan = guarded(func() {
 		x, err := in.readFrom(rd)
 		r.canon, _ = Canon(x, CanonOpts{})
 		r.err = maskErr(err)
 	})
-	rd.Discard(rd.Buffered())
-	buf.Reset()
 	return r
 }
 
@@ -470,10 +482,9 @@ func (st *c11State) probe(label string) {
 	}
 	if kind == pReadFrom && st.persistRd != nil {
 		// the probe goes through the same reader object the history used
-		used := c11ProbeSameReader(st.in, st.persistBuf, st.persistRd, data)
+		used := c11ProbeSameReader(st.in, st.persistRd, data)
 		ftm, fnm := st.pristineMaps()
-		fb := &bytes.Buffer{}
-		fresh := c11ProbeSameReader(c11New(st.pair, ftm, fnm), fb, bufio.NewReader(fb), data)
+		fresh := c11ProbeSameReader(c11New(st.pair, ftm, fnm), NewSimReader(nil, nil), data)
 		st.o.Evals++
 		if used.canon != fresh.canon || used.err != fresh.err || used.pan != fresh.pan {
 			st.o.fail("c11/probe-differs", "ReadFrom(same reader)", "%s: after the history %v, ReadFrom through the caller's one reader returned {%s} on the used instance but {%s} on a fresh one",
@@ -492,6 +503,7 @@ func (st *c11State) probe(label string) {
 	if _, isFunc := v.(func()); isFunc {
 		vv = nil
 	}
+	st.in.sameW = st.persistW
 	st.around("probe "+c11ProbeNames[kind], vv, data, func() { used = c11Probe(st.in, kind, v, data) })
 	ftm, fnm := st.pristineMaps()
 	fresh := c11Probe(c11New(st.pair, ftm, fnm), kind, v, data)
@@ -536,7 +548,7 @@ func runC11(ch *Choices, cfg *RunCfg) (o *Outcome) {
 		n := ch.Pick([]int{5, 20, 20, 15, 10, 10, 10, 10}, "hist.len.kind")
 		hlen := []int{0, 1, 2, 3, 5, 8, 15, 30}[n]
 		for i := 0; i < hlen && o.Class == ""; i++ {
-			st.histOp(ch.Pick([]int{20, 8, 22, 15, 15, 8, 8, 4, 12}, "hist.op"))
+			st.histOp(ch.Pick([]int{20, 8, 22, 15, 15, 8, 8, 4, 12, 8}, "hist.op"))
 		}
 		if o.Class == "" {
 			st.probe("history")
